@@ -35,6 +35,11 @@ def classify(chk, s, r, an, findings):
         if ck == "CWorkerQueue" and "F4" in findings:
             return "known", ("F4", "jobs waiting in a per-worker queue vanish when the factory stops "
                                    "(not handled, not discarded(Shutdown), not returned); e.g. corpus/C13/f4_stop_drops_worker_queue.scn")
+        if ck == "CStopExit" and "F9" in findings and not r["stale"] and not started \
+                and any(op[0] in ("stop", "drain") for op in s["ops"][:opi + 1]):
+            return "known", ("F9", "a job already handed to a worker (in its mailbox, handler not started) is dropped when the stopping "
+                                   "factory stops that worker: not handled, not discarded(Shutdown), not returned; "
+                                   "e.g. corpus/C13/f9_stop_drops_unstarted_mailbox_job.scn")
         if ck in ("CMailbox", "CStopExit", "CDeath") and "F3" in findings:
             aid = cause[1]
             wid = actor_wid(r["impl"], aid)
